@@ -81,11 +81,15 @@ type ListSys[T comparable] struct {
 	N      int
 	Cmps   map[string]func(a, b T) int // nat, rev, coarse
 	Ctor   bool                        // root built by New(values...) variants too
+	// Deep mode (data independence): every inserted value is fresh (Gen(counter)) and of a type
+	// the fingerprint drops, so the state is (length, capacity) only and sizes of 40-100 are
+	// affordable; the alphabet is reduced to the index alignments that matter.
+	Gen func(i int) T
 }
 
-func (s *ListSys[T]) Name() string   { return s.Kind }
+func (s *ListSys[T]) Name() string    { return s.Kind }
 func (s *ListSys[T]) Props() []string { return []string{"C03", "C15", "C16"} }
-func (s *ListSys[T]) New() Inst      { return s.newBox() }
+func (s *ListSys[T]) New() Inst       { return s.newBox() }
 func (s *ListSys[T]) newAPI(vals ...T) *listAPI[T] {
 	switch s.Kind {
 	case "arraylist":
@@ -100,9 +104,29 @@ func (s *ListSys[T]) newAPI(vals ...T) *listAPI[T] {
 func (s *ListSys[T]) newBox() *listBox[T] { return &listBox[T]{sys: s, a: s.newAPI()} }
 
 type listBox[T comparable] struct {
-	sys *ListSys[T]
-	a   *listAPI[T]
-	ref []T
+	sys  *ListSys[T]
+	a    *listAPI[T]
+	ref  []T
+	next int // fresh-value counter (deep mode)
+}
+
+// universe of probe values: the fixed universe, or (deep mode) first/middle/last element
+func (b *listBox[T]) probeVals() []T {
+	if b.sys.Gen == nil {
+		return append(append([]T{}, b.sys.U...), b.sys.Absent)
+	}
+	var vs []T
+	if n := len(b.ref); n > 0 {
+		vs = append(vs, b.ref[0], b.ref[n/2], b.ref[n-1])
+	}
+	return append(vs, b.sys.Absent)
+}
+
+func (b *listBox[T]) setVal(u int) T {
+	if b.sys.Gen != nil {
+		return b.sys.Gen(b.next + 1)
+	}
+	return b.sys.U[u]
 }
 
 // argument tuples (as universe indices)
@@ -122,15 +146,79 @@ func (b *listBox[T]) idxs() []int {
 }
 
 func (b *listBox[T]) tuple(ti int) []T {
+	if ti >= 100 {
+		vs := make([]T, ti-100)
+		for i := range vs {
+			vs[i] = b.sys.Gen(b.next + 1 + i)
+		}
+		return vs
+	}
 	t := listTuples[ti]
 	vs := make([]T, len(t))
 	for i, u := range t {
-		vs[i] = b.sys.U[u%len(b.sys.U)]
+		if b.sys.Gen != nil {
+			vs[i] = b.sys.Gen(b.next + 1 + i)
+		} else {
+			vs[i] = b.sys.U[u%len(b.sys.U)]
+		}
 	}
 	return vs
 }
 
+// bulk tuples (deep mode): index 100+k stands for k fresh values in one call
+func bulkLen(ti int) int {
+	if ti >= 100 {
+		return ti - 100
+	}
+	return len(listTuples[ti])
+}
+
+func (b *listBox[T]) deepOps() []Op {
+	n := len(b.ref)
+	room := b.sys.N - n
+	var ops []Op
+	names := []string{"Add"}
+	if b.a.app != nil {
+		names = append(names, "Prepend")
+	}
+	for _, nm := range names {
+		for _, ti := range []int{1, 7, 117, 133, 164} { // one value, three values, bulk calls of 17 / 33 / 64 values
+			if bulkLen(ti) <= room {
+				ops = append(ops, op(nm, ti))
+			}
+		}
+	}
+	idx := map[int]bool{}
+	var is []int
+	for _, i := range []int{0, 1, n / 2, n - 2, n - 1, n} {
+		if i >= 0 && !idx[i] {
+			idx[i] = true
+			is = append(is, i)
+		}
+	}
+	for _, i := range is {
+		for _, ti := range []int{1, 4, 133} { // one value, two values, 33 values
+			if bulkLen(ti) <= room {
+				ops = append(ops, op("Insert", i, ti))
+			}
+		}
+		if i < n {
+			ops = append(ops, op("Remove", i))
+		}
+		if i < n || room >= 1 {
+			ops = append(ops, op("Set", i, 0))
+		}
+	}
+	if n >= 2 {
+		ops = append(ops, op("Swap", 0, n-1), op("Swap", n/2, n-1))
+	}
+	return append(ops, op("Sort", 0), op("Sort", 1), op("Clear"))
+}
+
 func (b *listBox[T]) Ops() []Op {
+	if b.sys.Gen != nil {
+		return b.deepOps()
+	}
 	var ops []Op
 	n := len(b.ref)
 	room := b.sys.N - n
@@ -187,7 +275,7 @@ func (b *listBox[T]) Describe(o Op) string {
 	case "Remove":
 		return fmt.Sprintf("Remove(%d)", o.A[0])
 	case "Set":
-		return fmt.Sprintf("Set(%d, %v)", o.A[0], b.sys.U[o.A[1]])
+		return fmt.Sprintf("Set(%d, %v)", o.A[0], b.setVal(o.A[1]))
 	case "Swap":
 		return fmt.Sprintf("Swap(%d, %d)", o.A[0], o.A[1])
 	case "Sort":
@@ -224,6 +312,7 @@ func (b *listBox[T]) Do(o Op) *Viol {
 	switch o.N {
 	case "Add", "Append", "Prepend":
 		vs := b.tuple(o.A[0])
+		b.next += len(vs)
 		arg := argSlice(vs)
 		switch o.N {
 		case "Add":
@@ -243,6 +332,7 @@ func (b *listBox[T]) Do(o Op) *Viol {
 		}
 	case "Insert":
 		vs := b.tuple(o.A[1])
+		b.next += len(vs)
 		arg := argSlice(vs)
 		b.a.insert(o.A[0], arg...)
 		if v := scribbleCheck(arg, b.sys.Poison, b.a.values, b.a.name, o.N); v != nil {
@@ -257,7 +347,8 @@ func (b *listBox[T]) Do(o Op) *Viol {
 			b.ref = append(append([]T{}, b.ref[:i]...), b.ref[i+1:]...)
 		}
 	case "Set":
-		v := b.sys.U[o.A[1]]
+		v := b.setVal(o.A[1])
+		b.next++
 		b.a.set(o.A[0], v)
 		if i := o.A[0]; in(i) {
 			b.ref = append([]T{}, b.ref...)
@@ -307,7 +398,7 @@ func (b *listBox[T]) content() *Viol {
 }
 
 func (b *listBox[T]) probeTuples() [][]T {
-	vals := append(append([]T{}, b.sys.U...), b.sys.Absent)
+	vals := b.probeVals()
 	ts := [][]T{{}}
 	for _, x := range vals {
 		ts = append(ts, []T{x})
@@ -342,7 +433,7 @@ func (b *listBox[T]) CheckState() *Viol {
 			return viol(tag("C03"), "mismatch", "Get(%d) = (%v, %v) out of range, want (zero, false); size %d", i, got, ok, n)
 		}
 	}
-	for _, x := range append(append([]T{}, b.sys.U...), b.sys.Absent) {
+	for _, x := range b.probeVals() {
 		want := -1
 		for i, v := range b.ref {
 			if v == x {
@@ -368,6 +459,27 @@ func (b *listBox[T]) CheckState() *Viol {
 		arg := argSlice(t)
 		if got := b.a.contains(arg...); got != want {
 			return viol(tag("C03"), "mismatch", "Contains(%v...) = %v, abstract sequence %v says %v", t, got, b.ref, want)
+		}
+	}
+	// long argument lists: every element twice, one present value nine and sixteen times, the same plus an absent one
+	if n > 0 {
+		long := append(append([]T{}, b.ref...), b.ref...)
+		if !b.a.contains(argSlice(long)...) {
+			return viol(tag("C03"), "mismatch", "Contains(every element, twice: %d arguments) = false", len(long))
+		}
+		for _, k := range []int{9, 16, 33} {
+			rep := make([]T, k)
+			for i := range rep {
+				rep[i] = b.ref[(i*7)%n]
+			}
+			rep[k-1] = rep[0]
+			if !b.a.contains(argSlice(rep)...) {
+				return viol(tag("C03"), "mismatch", "Contains(%v...) = false although every argument is in %v", rep, b.ref)
+			}
+			rep[k/2] = b.sys.Absent
+			if b.a.contains(argSlice(rep)...) {
+				return viol(tag("C03"), "mismatch", "Contains(%v...) = true although %v is absent from %v", rep, b.sys.Absent, b.ref)
+			}
 		}
 	}
 	return pureAll(CanonOpts{}, b.a.obj, b.Readers(), tag("C03"))
@@ -399,14 +511,18 @@ func (b *listBox[T]) Readers() []Reader {
 		i := i
 		rs = append(rs, Reader{fmt.Sprintf("Get(%d)", i), func() string { v, ok := b.a.get(i); return fmt.Sprint(v, ok) }})
 	}
-	for _, x := range append(append([]T{}, b.sys.U...), b.sys.Absent) {
+	for _, x := range b.probeVals() {
 		x := x
 		rs = append(rs, Reader{fmt.Sprintf("IndexOf(%v)", x), func() string { return fmt.Sprint(b.a.indexOf(x)) }})
 		rs = append(rs, Reader{fmt.Sprintf("Contains(%v)", x), func() string { return fmt.Sprint(b.a.contains(x)) }})
 	}
 	return rs
 }
-func (b *listBox[T]) Fresh() Box            { return b.sys.newBox() }
+func (b *listBox[T]) Fresh() Box {
+	nb := b.sys.newBox()
+	nb.next = b.next // deep mode: the fresh-value counter continues, so that the same operations insert the same values
+	return nb
+}
 func (b *listBox[T]) JSONKind() string      { return "array" }
 func (b *listBox[T]) Unordered() bool       { return false }
 func (b *listBox[T]) ContainerName() string { return b.a.name }
